@@ -149,6 +149,19 @@ Definition py_formatter (unit : Q) (output_unit : option Q) : formatter :=
 Definition show_text_py (unit : Q) (output_unit : option Q) (E : env) (o : options) (st : stats)
   : report := show_text (py_formatter unit output_unit) E o st.
 
+(* ---- the two command lines that print a report ---------------------------------------- *)
+(* `python -m line_profiler [-u U] [-z] [-t] [-m] X.lprof`: main() loads the pickled LineStats and
+   hands ITS timings dict, unchanged, to show_text (details always on; -u defaults to 1e-6).
+   The environment is the one of the viewer's process (relative file names resolve against its
+   working directory). *)
+Definition viewer_cli_report (unit u : Q) (z t m : bool) (E : env) (st : stats) : report :=
+  show_text_py unit (Some u) E (mkOpts z t m true) st.
+
+(* `kernprof -l -v [-u U] [-z] script`: prof.print_stats(output_unit=U, stripzeros=z) on the
+   statistics just collected, in the kernprof process *)
+Definition kernprof_view_report (unit u : Q) (z : bool) (E : env) (st : stats) : report :=
+  show_text_py unit (Some u) E (mkOpts z false false true) st.
+
 (* ---- reading a printed number back ------------------------------------------------ *)
 (* a printed cell is  [spaces] digits [ "." digits ] [ "e" ("+"|"-") digits ];
    parse_dec gives (M, E, nd) with value M * 10^E, nd = number of mantissa digits printed *)
